@@ -279,6 +279,13 @@ theorem HKeep.of_erase {E : SlabID → Prop} {w w' : World} (hT : w'.T = w.T) (h
     (hh : w'.hinfo = w.hinfo) (hidx : ∀ q z, ¬ E z → AList.find? (w'.idxOf q) z = AList.find? (w.idxOf q) z) :
     HKeep E w w' := HKeep.of_idx hT hc hh hidx
 
+theorem hinfo_setCallbackMap_ne (w : World) (p : SlabID) (k : MKey) (v : WVal) (z : SlabID)
+    (h : ∀ wr, v ≠ .child z wr) :
+    AList.find? (w.setCallbackMap p k v).hinfo z = AList.find? w.hinfo z := by
+  cases v with
+  | plain e => rfl
+  | child x wr => rw [hinfo_setCallbackMap, if_neg (fun hx => h wr (by rw [hx]))]
+
 /-! ### the rank-relative frame of an operation (internal form of `AncFrame`) -/
 
 /-- frame of an operation through the handle of `p`, relative to a rank function of the world
